@@ -266,6 +266,12 @@ func (o *licmp6Obj) attach(ph string) {
 	o.hdr.SetNetworkLayerForChecksum(ip)
 }
 
+// licmp6PHValid: an IPv6 network layer with two 16-byte addresses is attached
+func licmp6PHValid(ph string) bool {
+	s, d, ok := strings.Cut(ph, ".")
+	return ok && len(s) == 32 && len(d) == 32
+}
+
 func licmp6ParseOpts(s string) layers.ICMPv6Options {
 	var os layers.ICMPv6Options
 	if s == "" {
@@ -448,6 +454,9 @@ func (licmp6) Run(c Case) Result {
 			}
 			// oracle C06, for values in the protocol's range: decoded without error (rt) or built
 			// in range (nrt); NDP messages carry no payload
+			if first == "ok" && scls == "err" && (k != "hdr" || licmp6PHValid(ph)) {
+				res.Oracle = append(res.Oracle, n6oracle("C06:serialize-error", "%s SerializeTo fails on a decoded / in-range value", k))
+			}
 			inScope := first == "ok" && scls == "ok" && (k == "hdr" || len(payload) == 0)
 			if inScope {
 				_, p2 := o2.base()
